@@ -49,13 +49,17 @@ func (b trackedBody) Close() error               { atomic.AddInt32(b.closed, 1);
 func c11ChallengeShapes(self *authHostCfg, otherRealm, otherHost string) map[string][]string {
 	good := fmt.Sprintf(`Bearer realm="https://%s/token",service="svc",scope="repository:x:pull"`, self.realmHost())
 	return map[string][]string{
-		"bearer":                  {good},
-		"basic":                   {`Basic realm="registry"`},
-		"bearer+basic-lines":      {good, `Basic realm="registry"`},
-		"basic+bearer-lines":      {`Basic realm="registry"`, good},
-		"unknown-scheme":          {`Negotiate abcdef`},
-		"unknown+bearer":          {`Negotiate abcdef`, good},
-		"escapes":                 {fmt.Sprintf(`Bearer realm="https://%s/to\"ken",service="s\\vc",scope="repository:x:pull"`, self.realmHost())},
+		"bearer":             {good},
+		"basic":              {`Basic realm="registry"`},
+		"bearer+basic-lines": {good, `Basic realm="registry"`},
+		"basic+bearer-lines": {`Basic realm="registry"`, good},
+		"unknown-scheme":     {`Negotiate abcdef`},
+		"unknown+bearer":     {`Negotiate abcdef`, good},
+		"escapes":            {fmt.Sprintf(`Bearer realm="https://%s/to\"ken",service="s\\vc",scope="repository:x:pull"`, self.realmHost())},
+		// quoted-pairs that a Go-literal unquoter would read differently: \x2e is the two octets "x2e" minus
+		// nothing - i.e. 'x','2','e' - not a dot; \056 likewise; the realm's host is spelled with them
+		"escapes-not-go-literals": {fmt.Sprintf(`Bearer realm="https://%s\x2eelsewhere.example/token",service="svc",scope="repository:x:pull"`, self.realmHost())},
+		"escapes-octal-lookalike": {fmt.Sprintf(`Bearer realm="https://%s\056elsewhere.example/to\nken",service="svc",scope="repository:x:pull"`, self.realmHost())},
 		"missing-realm":           {`Bearer service="svc",scope="repository:x:pull"`},
 		"unterminated-quote":      {fmt.Sprintf(`Bearer realm="https://%s/token`, self.realmHost())},
 		"empty":                   {``},
@@ -347,6 +351,17 @@ func c11Cases(thorough bool) []c11Case {
 					}
 				}
 			}
+		}
+	}
+	// two registries behind ONE token service (same realm, same service name, same scopes), each with its
+	// own password: whatever the transport remembers about that service must stay per registry
+	for _, cr := range []string{"basic", "basic+refresh", "refresh"} {
+		sa := &authHostCfg{Host: "a.example", Scheme: "bearer", Challenge: "exact", Creds: cr, TokenMode: "grant", Lifetime: 60, RealmHost: "auth-shared.example", Service: "svc-shared"}
+		sb := &authHostCfg{Host: "b.example:5000", Scheme: "bearer", Challenge: "exact", Creds: cr, TokenMode: "grant", Lifetime: 60, RealmHost: "auth-shared.example", Service: "svc-shared"}
+		ea := c11Event{Host: "a.example", Required: "repository:x:pull", Body: "none"}
+		eb := c11Event{Host: "b.example:5000", Required: "repository:x:pull", Body: "none"}
+		for _, h := range [][]c11Event{{ea, eb}, {eb, ea}, {ea, eb, ea}, {ea, ea, eb, eb}} {
+			out = append(out, c11Case{Hosts: []*authHostCfg{sa, sb}, History: h})
 		}
 	}
 	return out
